@@ -20,6 +20,7 @@ type ObligSummary struct {
 	Status    string   `json:"status"` // discharged | failed | cover_ok | cover_failed
 	Solver    string   `json:"solver,omitempty"`
 	Seconds   float64  `json:"seconds"`
+	MaxQuery  float64  `json:"max_query_seconds"`
 	SMTBytes  int      `json:"smt_bytes"`
 	FailTrace string   `json:"fail_trace,omitempty"`
 	FailFile  string   `json:"fail_file,omitempty"`
@@ -114,6 +115,9 @@ func verifyOne(prog *Program, cs *ContractSet, con *Contract, workDir string, ti
 		}
 		sm.Paths++
 		sm.Seconds += ir.r.Seconds
+		if ir.r.Seconds > sm.MaxQuery {
+			sm.MaxQuery = ir.r.Seconds
+		}
 		if ir.r.Bytes > sm.SMTBytes {
 			sm.SMTBytes = ir.r.Bytes
 		}
@@ -181,7 +185,7 @@ func main() {
 	if *work == "" {
 		*work = filepath.Join(*verif, "work", fmt.Sprintf("%s-%d", cmd, os.Getpid()))
 	}
-	tmo := 30
+	tmo := 60
 	if *tier == "thorough" {
 		tmo = 120
 	}
